@@ -182,7 +182,8 @@ def observe(s, q, aq, rng, missing, topks=(2, 3, 5)):
     # without overlap one of the document's values is the key - which one is not said)
     for fn, overlap, stored in (("tag", False, False), ("num", False, False), ("multi", True, False),
                                 ("flag", False, False), ("st", False, True), ("multi", True, True),
-                                ("tagnc", False, False), ("numnc", False, False), ("multi", False, False)):
+                                ("tagnc", False, False), ("numnc", False, False), ("multi", False, False),
+                                ("numnc", True, False), ("tagnc", True, False)):
         frev = not stored and not overlap and rng.random() < 0.4
 
         def g(fn=fn, overlap=overlap, stored=stored, frev=frev):
